@@ -24,6 +24,7 @@ from ..engine import grammar
 from ..engine.asdl import Asdl
 
 PARSER_DIR = "xonsh/parsers"
+BP = "xonsh/parsers/base.py"
 HELPER_FILES = ("xonsh/parsers/base.py", "xonsh/parsers/ast.py", "xonsh/parsers/fstring_adaptor.py", "xonsh/parsers/context_check.py")
 # node kinds of `mod` that exec/eval/single mode cannot produce
 EXCLUDED_KINDS = {"FunctionType": "mode 'func_type' only", "TypeIgnore": "only with type_comments=True"}
@@ -84,6 +85,7 @@ def check(ctx):
     ctx.rule("R11", "tokenizer typestate: the backslash-continuation flag of a string never outlives that string on a path without a tokenizer error", floor=1)
     ctx.rule("R12", "the value of a string or bytes literal is computed by the interpreter's own evaluators (ast.literal_eval / the host parser / the f-string adaptor) on every path - never by slicing the token text (escapes, line-ending translation, prefixes)", floor=3)
     ctx.rule("R13", "the post-parse target check rejects a program only on the verdict of its one decision function (_not_assignable), and that function never rejects a Name, Attribute, Subscript or Starred target: valid Python is not turned into a SyntaxError by an extra check", floor=4)
+    ctx.rule("R14", "the context setters reach every nested target: store_ctx / del_ctx / load_ctx (and a shared worker, if they delegate to one) call themselves on each element of a Tuple or List target and on the value of a Starred target - the three places where the interpreter's grammar nests a target inside a target (`a, *(b, c) = x`, `for a, *[b, c] in xs`)", floor=9)
     ctx.rule("R9", "the generated LALR table on disk (if present) was generated from the grammar of the working tree", floor=1)
 
     asdl = Asdl()
@@ -453,6 +455,7 @@ def check(ctx):
             ctx.ob("R9", tbl, "generated table present; signature comparison runs in the thorough tier", True)
     else:
         ctx.ob("R9", tbl, "no generated table on disk: the parser regenerates it from the working tree", True)
+    _ctx_setters_recurse(ctx, asdl)
     _literal_values(ctx)
     fstring_chunk_values(ctx, "R12")
     _target_check_grounds(ctx)
@@ -663,6 +666,56 @@ def fstring_chunk_values(ctx, rule):
         bad = judged(a.value)
         ctx.ob(rule, st, f"`{short(a, 60)}`: the value of a literal chunk comes out of the interpreter's own parser (or is the chunk unchanged)", bad is None, key="fstring-chunk|value-not-delegated", where=loc(a), detail=f"`{short(bad, 60)}` computes the value by other means (a codec, a hand-written unescape): non-ASCII text, \\N{{...}}, line continuations differ" if bad is not None else None)
 
+
+
+def _ctx_setters_recurse(ctx, asdl):
+    """Tuple.elts / List.elts / Starred.value are the slots in which a target contains targets."""
+    SLOTS = (("Tuple", "elts"), ("List", "elts"), ("Starred", "value"))
+    # the setters live in base.py today; a move to a sibling helper module (imported back) is followed
+    bp = next((ctx.repo.module(rel) for rel in HELPER_FILES if ctx.repo.module(rel).has("store_ctx")), None)
+    if bp is None:
+        raise AnchorMissing("xonsh/parsers: no definition of store_ctx in the parser helper modules")
+    BP = bp.rel
+    for k, f in SLOTS:
+        if f not in {fl for ty_, q_, fl in asdl.kinds.get(k, []) if ty_ == "expr"} or not asdl.has_ctx(k):
+            raise AnalysisError(f"the interpreter's grammar has no {k}.{f} / {k}.ctx: the slot table of R14 is out of date")
+    for pub in ("store_ctx", "del_ctx", "load_ctx"):
+        fn = bp.func(pub, raw=True)
+        worker, family = fn, {pub}
+        body = [s_ for s_ in fn.body if not (isinstance(s_, ast.Expr) and isinstance(s_.value, ast.Constant))]
+        if len(body) == 1 and isinstance(body[0], (ast.Expr, ast.Return)) and isinstance(body[0].value, ast.Call) and isinstance(body[0].value.func, ast.Name) and bp.has(body[0].value.func.id):
+            worker = bp.func(body[0].value.func.id, raw=True)
+            family = {pub, worker.name}
+        xp = worker.args.args[0].arg
+        wdefs = df.all_defs(worker)
+        rec = [c for c in calls_in(worker) if isinstance(c.func, ast.Name) and c.func.id in family and c.args]
+        covered = set()
+        for c in rec:
+            a0 = c.args[0]
+            # x.value / x.elts[i] / a loop (or comprehension) variable ranging over x.elts
+            if isinstance(a0, ast.Attribute) and unparse(a0.value) == xp:
+                fld = a0.attr
+            else:
+                src = element_source(worker, a0.id, wdefs) if isinstance(a0, ast.Name) else None
+                fld = src.attr if isinstance(src, ast.Attribute) and unparse(src.value) == xp else None
+                if fld is None and isinstance(a0, ast.Name):
+                    comp = next((g for g in ast.walk(worker) if isinstance(g, ast.comprehension) and isinstance(g.target, ast.Name) and g.target.id == a0.id), None)
+                    if comp is not None and isinstance(comp.iter, ast.Attribute) and unparse(comp.iter.value) == xp:
+                        fld = comp.iter.attr
+            if fld is None:
+                continue
+            # which node kinds is this call made for: isinstance facts governing it
+            kinds = set()
+            for a in ancestors(c):
+                if isinstance(a, ast.If):
+                    for t in ast.walk(a.test):
+                        if isinstance(t, ast.Call) and call_name(t) == "isinstance" and len(t.args) == 2 and unparse(t.args[0]) == xp:
+                            kinds |= {n_.attr if isinstance(n_, ast.Attribute) else n_.id for n_ in ast.walk(t.args[1]) if isinstance(n_, (ast.Attribute, ast.Name)) and (n_.attr if isinstance(n_, ast.Attribute) else n_.id) != "ast"}
+            for k in kinds or {"?"}:
+                covered.add((k, fld))
+        for k, f in SLOTS:
+            ok = (k, f) in covered or ("?", f) in covered
+            ctx.ob("R14", f"{BP}:{worker.name if worker is not fn else pub}", f"{pub}: the setter is applied to {k}.{f} (a target nested in a target gets the context too)", ok, key=f"{pub}|nested-target-not-reached|{k}.{f}", where=loc(worker))
 
 META = {
     "technique": "static analysis over the effective PLY grammar (dumped from the working tree; LALR table generated to find live productions) and MRO-resolved action ASTs, with the running interpreter's ast/token/keyword modules and ast._Unparser tables as oracles",
